@@ -187,6 +187,18 @@ let reject_variants (f : aframe) : (string * byte list) list =
         let before' = take i before @ [(4, e_var (n_of_int plen))] in
         emit "undefined-id" (reframe b0 (body_of (before' @ block @ after)))
       end) segs;
+  (* (d') the identifier of an existing property replaced by an undefined one, value kept:
+     the high-bit twin of the identifier, and a random undefined one *)
+  List.iteri (fun i (k, bs) ->
+      if k = 5 then begin
+        let id = int_of_byte (List.hd bs) in
+        let cands = (if id < 128 then [id lor 128] else []) @ [pick_l undefined_ids] in
+        List.iter (fun u ->
+            if List.mem u undefined_ids then begin
+              let segs' = List.mapi (fun j s -> if j = i then (5, byte_tab.(u) :: List.tl bs) else s) segs in
+              emit "undefined-id-replace" (reframe b0 (body_of segs'))
+            end) cands
+      end) segs;
   ignore nsegs;
   !out
 
